@@ -6,6 +6,7 @@
 //!
 //! Every family generates an *op line*, then executes the real code by parsing that line, so
 //! a replay goes through exactly the same path as the original run.
+mod fam_liq;
 mod fam_math;
 mod hist;
 mod hist_oracle;
@@ -56,6 +57,7 @@ pub fn families() -> Vec<Box<dyn Family>> {
     let mut v: Vec<Box<dyn Family>> = Vec::new();
     fam_math::register(&mut v);
     hist::register(&mut v);
+    fam_liq::register(&mut v);
     v
 }
 
